@@ -676,7 +676,7 @@ func c16kvConfig() {
 	// symbolically time.Since is 0 (no log line), natively it is the real one.
 	vNoop("time.Since")
 	vAssumption("KV unit: in-memory fake of the kvdb backend (walletdb.DB): Update/View/Batch, nested buckets, Get/Put/Delete/ForEach in key order, DeleteNestedBucket, CreateBucketIfNotExists, Sequence/SetSequence; every other method panics; write transactions are atomic (rollback on error / on a symbolic commit failure); Batch = Update (single caller, no retry)")
-	vAssumption("KV unit: pre-state produced by the real API (InitPayment, RegisterAttempt xN, FailAttempt / SettleAttempt, Fail); existing attempt ids concrete 2,4,6; one-hop MPP routes with concrete keys, MPP total and payment address; symbolic payment value, receiver amounts, route totals, failure reason; id and amounts of the operation under judgement symbolic")
+	vAssumption("KV unit: pre-state produced by the real API (InitPayment, RegisterAttempt xN, FailAttempt / SettleAttempt, Fail); existing attempt ids any strictly increasing uint64; one-hop MPP routes with concrete keys, MPP total and payment address; symbolic payment value, receiver amounts, route totals, failure reason; id and amounts of the operation under judgement symbolic")
 }
 
 // c16kvHistory builds the pre-state through the real KVStore. The history's
@@ -708,7 +708,7 @@ func c16kvHistory(maxN int) *c16kvWorld {
 		// is then its re-initiation (new sequence number, old attempts,
 		// failure reason and index entry have to be gone).
 		old := c16kvSymAtt("Old")
-		old.id = 2
+		old.id = vU64("idOld")
 		ov := vU64("valueOld")
 		vAssume(ov <= c16MaxMsat && old.amt <= ov)
 		err = s.InitPayment(ctx, c16Hash, &PaymentCreationInfo{
@@ -745,7 +745,12 @@ func c16kvHistory(maxN int) *c16kvWorld {
 	var sent uint64
 	for i := 0; i < n; i++ {
 		a := c16kvSymAtt(c16Idx[i])
-		a.id = uint64(2*i + 2)
+		// attempt ids: any strictly increasing uint64 (the switch's
+		// monotonic sequencer hands them out in registration order)
+		a.id = vU64("id" + c16Idx[i])
+		if i > 0 {
+			vAssume(w.p.atts[i-1].id < a.id)
+		}
 		a.st = vChoice("st"+c16Idx[i], 3)
 		// domain: the attempt fits into what is left (everything else about
 		// it is in order: nothing settled, no failure reason, same MPP options)
